@@ -66,3 +66,54 @@ Print Assumptions C10_untouched_hunks_are_listed.
 
 (* A new backup into a damaged archive keeps referential integrity and records only
    truthful entries: Props/C04.v (backup_refint needs no health of the old bands beyond AInv). *)
+
+(* ---- "when the damage was a deleted or emptied file, a new backup of the source completes
+        and restores exactly" ---- *)
+From CV Require Import Conf Truth E2E Heals HealsP.
+
+(* From an archive the operations maintain ([Ready]) that then LOST one file other than the
+   header -- a band head, a band tail, an index hunk or a data block, deleted or truncated to
+   zero length -- a fault-free backup of any sorted source succeeds with zero errors into a
+   band above every existing one, and restoring it returns, in order and without error, every
+   source item with its metadata and its bytes (a reused basis entry denotes the same bytes
+   the source had when it was recorded; an entry naming the lost block is not reused: the
+   file is stored again). *)
+Theorem C10_backup_heals_after_a_lost_file :
+  forall (pre : bytes -> N) (c : cfg) (src : list sitem) (a : arch) (f : fpath) (a' : arch),
+    Ready pre a -> lost a f a' -> SrcSorted src -> SrcWF src -> cfg_ok c ->
+    exists tr a1 r,
+      run pre (backup_prog pre c src) a' [] = (tr, a1, Done r)
+      /\ b_ok r = true /\ b_errors r = 0 /\ b_band r = Some (new_band a)
+      /\ (forall b, has_dir a' (DBand b) = true -> b < new_band a)
+      /\ exists tr' rr,
+           run pre (restore_prog (Specified (new_band a)) keep_all) a1 [] = (tr', a1, Done rr)
+           /\ r_ok rr = true /\ r_merr rr = 0
+           /\ Forall2 (item_healed c a') (known_items src) (r_files rr).
+Proof. exact lost_then_backup_heals. Qed.
+Print Assumptions C10_backup_heals_after_a_lost_file.
+
+(* What the backup needs of its start state is much less than health: [Usable]. *)
+Theorem C10_backup_heals :
+  forall (pre : bytes -> N) (c : cfg) (src : list sitem) (a0 : arch),
+    Usable pre a0 -> SrcSorted src -> SrcWF src -> cfg_ok c ->
+    exists tr a1 r,
+      run pre (backup_prog pre c src) a0 [] = (tr, a1, Done r)
+      /\ b_ok r = true /\ b_errors r = 0 /\ b_band r = Some (new_band a0)
+      /\ exists tr' rr,
+           run pre (restore_prog (Specified (new_band a0)) keep_all) a1 [] = (tr', a1, Done rr)
+           /\ r_ok rr = true /\ r_merr rr = 0
+           /\ Forall2 (item_healed c a0) (known_items src) (r_files rr).
+Proof. exact backup_heals. Qed.
+Print Assumptions C10_backup_heals.
+
+(* Not claimed, and false: a block overwritten with garbage is listed as present and reused. *)
+Theorem C10_garbage_block_not_healed_refuted :
+  exists pre c src a f a',
+    Ready pre a /\ damaged a f a' /\ f <> PHeader /\ f <> PLock
+    /\ SrcSorted src /\ SrcValid src /\ SrcWF src /\ cfg_ok c
+    /\ forall tr a1 r tr' rr,
+         run pre (backup_prog pre c src) a' [] = (tr, a1, Done r) ->
+         run pre (restore_prog (Specified (new_band a')) keep_all) a1 [] = (tr', a1, Done rr) ->
+         b_ok r = true /\ b_errors r = 0 /\ r_merr rr <> 0.
+Proof. exact backup_heals_garbage_refuted. Qed.
+Print Assumptions C10_garbage_block_not_healed_refuted.
